@@ -501,6 +501,39 @@ fn main() {
             }
         }
     }
+    if cli.thorough {
+        // depth 2 over the full alphabet on a fresh and on a warmed-up thread; full x reduced inside the
+        // thread's tear-down; depth 3 over the reduced alphabet on a warmed-up thread
+        for a in &full {
+            for b in &full {
+                for phase in [0usize, 1] {
+                    index += 1;
+                    if cli.mine(index) {
+                        check(&r, &[*a, *b], phase, index);
+                    }
+                }
+            }
+            for b in &reduced {
+                for phase in [2usize, 3] {
+                    index += 1;
+                    if cli.mine(index) {
+                        check(&r, &[*a, *b], phase, index);
+                    }
+                }
+            }
+        }
+        let reduced1: Vec<Req> = reduced.iter().copied().filter(|q| q.align == 1).collect();
+        for a in &reduced1 {
+            for b in &reduced1 {
+                for c in &reduced1 {
+                    index += 1;
+                    if cli.mine(index) {
+                        check(&r, &[*a, *b, *c], 1, index);
+                    }
+                }
+            }
+        }
+    }
     let tiny: Vec<Req> = reduced.iter().copied().filter(|q| q.size == 8 && q.align == 1 && (q.op != 2 || q.new_size == 24)).collect();
     let d3_phases: &[usize] = if cli.thorough { &[0, 1, 2, 3] } else { &[0, 2] };
     for a in &tiny {
@@ -515,7 +548,25 @@ fn main() {
             }
         }
     }
+    if cli.thorough {
+        // depth 4 over the one-layout alphabet in every phase
+        for a in &tiny {
+            for b in &tiny {
+                for c in &tiny {
+                    for d in &tiny {
+                        for phase in 0..4 {
+                            index += 1;
+                            if cli.mine(index) {
+                                check(&r, &[*a, *b, *c, *d], phase, index);
+                            }
+                        }
+                    }
+                }
+            }
+        }
+    }
     r.set_bounds(json!({
+        "thorough_extra": if cli.thorough { "depth 2 over the full alphabet (fresh / warmed-up thread), full x reduced in tear-down, depth 3 over the reduced alphabet with align 1 (warmed-up), depth 4 over the one-layout alphabet in every phase" } else { "-" },
         "huge_requests": huge.len(), "huge_sequences": "all pairs and triples of requests of about isize::MAX bytes (build with overflow checks)",
         "depth1_requests": full.len(), "depth2_alphabet": reduced.len(), "depth3_alphabet": tiny.len(),
         "layouts_full": layouts(true).iter().map(|(s, a)| format!("{s}/{a}")).collect::<Vec<_>>(),
